@@ -58,6 +58,7 @@ QSbasis *mpf_QSget_basis(mpf_QSdata *p) { return nondet_bool() ? mk_basis() : 0;
 void mpf_QSfree_prob(mpf_QSdata *p) { if (p) { free(p->qslp); free(p->lp); free(p); } }
 void mpf_QSfree_basis(QSbasis *b) { if (b) { g_basis_live--; free(b->cstat); free(b->rstat); free(b); } }
 void mpq_QSfree_basis(QSbasis *b) { if (b) { g_basis_live--; free(b->cstat); free(b->rstat); free(b); } }
+void dbl_QSfree_basis(QSbasis *b) { if (b) { g_basis_live--; free(b->cstat); free(b->rstat); free(b); } }
 void mpf_ILLlp_basis_free(mpf_ILLlp_basis *B) { }
 void mpf_QSset_precision(const unsigned prec) { }
 int mpq_QSwrite_prob(mpq_QSdata *p, const char *a, const char *b) { return nondet_int(); }
@@ -67,8 +68,8 @@ int mpf_QSwrite_prob(mpf_QSdata *p, const char *a, const char *b) { return nonde
 int mpq_QSget_x_array(mpq_QSdata *p, mpq_t *x) { DIRTY(); return nondet_int(); }
 int mpq_QSget_pi_array(mpq_QSdata *p, mpq_t *x) { DIRTY(); return nondet_int(); }
 int mpq_QSget_infeas_array(mpq_QSdata *p, mpq_t *x) { DIRTY(); return nondet_int(); }
-int g_loaded_ok;
-int mpq_QSload_basis(mpq_QSdata *p, QSbasis *B) { int r = nondet_int(); DIRTY(); g_loaded_ok = (r == 0); return r; }
+int g_loaded_ok, g_load_calls; QSbasis *g_loaded_basis;
+int mpq_QSload_basis(mpq_QSdata *p, QSbasis *B) { int r = nondet_int(); DIRTY(); g_loaded_ok = (r == 0); g_load_calls++; g_loaded_basis = B; return r; }
 
 /* same-TU callees whose bodies are removed and replaced by their (ghost) contracts */
 int QSexact_optimal_test(mpq_QSdata *p, mpq_t *p_sol, mpq_t *d_sol, QSbasis *basis)
@@ -146,6 +147,41 @@ void harness(void)
 		ASSERT(p->cache == 0, "C18: the stale solution cache is discarded before the basis is re-evaluated");
 		ASSERT(qsv_gmp_live == live0 - 1, "C18: the number embedded in the discarded cache (cache->val) is cleared, and every number the function initialises itself is cleared again");
 	}
+	REACH_END();
+}
+#elif defined(FN_verify)
+/* C12 / C18: QSexact_verify (REAL, with the REAL QSexact_basis_dualstatus behind it); callees outside exact.c and
+ * QSexact_optimal_test are arbitrary-result stubs.
+ *   - without the approximate pre-step the exact dual test of the basis is run whatever the caller's result variable held
+ *   - a verdict 1 comes from a passed exact optimality test of the approximate solution (with the objective value fetched)
+ *     or from the exact dual test; nothing else sets it
+ *   - every basis object and the double-precision copy obtained for the pre-step are released before the function returns */
+void mpq_ILLfct_compute_dobj(mpq_lpinfo *lp) { }
+int g_objval_rc;
+int mpq_QSget_objval(mpq_QSdata *p, mpq_t *v) { g_objval_rc = nondet_int(); return g_objval_rc; }
+void harness(void)
+{
+	mpq_QSdata *p = qsv_alloc(sizeof *p);
+	QSbasis *B = mk_basis();
+	IN_BOOL(useprestep); IN_BOOL(have_sol); IN_INT(msg); IN_BOOL(want);
+	char result = nondet_char(); mpq_t dob; int rv;
+	double dsol[1] = { 0.0 };
+	p->qslp = qsv_alloc(sizeof *p->qslp); p->lp = qsv_alloc(sizeof *p->lp);
+	p->qslp->nrows = NS; p->qslp->ncols = NS; p->qslp->sinfo = 0; p->qslp->rA = 0; p->lp->nrows = NS; p->lp->pIpiz = 0;
+	p->cache = 0; p->basis = 0; p->simplex_display = 0; p->name = "P";
+	mpq_init(dob); mpq_init(p->lp->dobjval); mpq_init(p->lp->objbound); mpq_init(p->lp->dinfeas);
+	{ IN_INT(sb_verb); __QS_SB_VERB = sb_verb; }
+	ASSUME(msg != 0 || want);	/* the progress message reads *dobjval: with messages on, the caller must pass one (documented usage) */
+	g_opt_cert = 0;
+	rv = QSexact_verify(p, B, useprestep, have_sol ? &dsol[0] : (double *) 0, have_sol ? &dsol[0] : (double *) 0, &result, want ? &dob : (mpq_t *) 0, msg);
+	if (!useprestep) ASSERT(g_load_calls >= 1 && g_loaded_basis == B, "C12: without the pre-step the exact dual test is run on the caller's basis, whatever the result variable held on entry");
+	if (rv == 0 && result != 0)
+		ASSERT((g_opt_cert == 1 && g_load_calls == 0 && (!want || g_objval_rc == 0)) || (g_load_calls >= 1 && g_loaded_ok && (p->lp->basisstat.dual_feasible || (!p->lp->basisstat.dual_infeasible && p->lp->basisstat.dual_unbounded))),
+			"C12: verdict 1 only after a passed exact optimality test of the approximate solution, or from the exact dual test of a basis");
+	mpq_QSfree_basis(B);
+	ASSERT(g_basis_live == 0, "C18: every basis object obtained from the double-precision problem for the pre-step is released before QSexact_verify returns");
+	COVER_MUST(useprestep && rv == 0 && result == 1 && g_load_calls == 0, "accepted_by_prestep");
+	COVER_MUST(useprestep && g_load_calls >= 1, "prestep_then_exact_test");
 	REACH_END();
 }
 #else
